@@ -66,6 +66,10 @@ var (
 	ErrCircuitBreakerOpen = errors.New("circuit breaker is open")
 	// ErrTooManyRequests is returned when too many requests are made in half-open state
 	ErrTooManyRequests = errors.New("too many requests")
+	// ErrNotCounted is returned (or wrapped) by a protected function that never got as far as
+	// the thing the breaker protects: the call is neither a success nor a failure, and a trial
+	// slot it took in half-open state is given back
+	ErrNotCounted = errors.New("outcome not counted by the circuit breaker")
 )
 
 // Settings holds the configuration for a circuit breaker
@@ -127,8 +131,22 @@ func (cb *CircuitBreaker) Execute(fn func() error) error {
 	}()
 
 	err = fn()
+	if errors.Is(err, ErrNotCounted) {
+		cb.releaseRequest(trialOf)
+		return err
+	}
 	cb.afterRequest(trialOf, err == nil)
 	return err
+}
+
+// releaseRequest takes back the admission of a request whose outcome is not counted: a trial
+// of the current half-open period frees its slot for another trial
+func (cb *CircuitBreaker) releaseRequest(trialOf uint64) {
+	cb.mutex.Lock()
+	defer cb.mutex.Unlock()
+	if cb.state == StateHalfOpen && trialOf == cb.halfOpenPeriod && cb.requestCount > 0 {
+		cb.requestCount--
+	}
 }
 
 // Call is an alias for Execute for backward compatibility
